@@ -698,6 +698,12 @@ mod huffman {
                         }
                     }
 
+                    if self.pending_bits == 0 && std::ptr::eq(map, self.decode) {
+                        // All bits are consumed at a symbol boundary: the item ends here. Testing
+                        // this first avoids consulting a table entry that no bit selected.
+                        return None;
+                    }
+
                     if self.pending_bits < 8 {
                         // We have run out of bytes. We may yet be able to decode the remaining bits.
                         // Promote the valid bits and consult the map; if it only consumes valid bits,
